@@ -2,6 +2,13 @@
 //@include from_u32.rs
 //@include errors.rs
 //@item src/build_helper.rs struct ListItem
+// R12x: `#[derive(Default)]` on ListItem expanded by hand into an inherent fn (derive(Default) is field-wise by
+// the Rust reference); call sites `ListItem::default()` are redirected to it. The expansion is the trusted part.
+impl ListItem {
+    fn verif_default() -> (r: Self)
+        ensures r == (ListItem { next: 0, prev: 0, used_base: false, used_index: false })
+    { ListItem { next: 0, prev: 0, used_base: false, used_index: false } }
+}
 //@item src/build_helper.rs struct BuildHelper
 //@item src/build_helper.rs struct VacantIter
 
@@ -130,7 +137,7 @@
     let ghost h0 = *self;
     let ghost lo = h_lo(h0);
     let ghost hi = h_hi(h0);
-    proof { lemma_window(h0); }
+    proof { lemma_window(h0); lemma_neighbours(h_cells(h0), h0.head_idx, lo, hi, idx as int); }
 //@}
 //@after 1 self.get_mut(idx).use_index();{
     let ghost h1 = *self;
@@ -146,5 +153,81 @@
 //@}
 //@closure 1 |&x| => |x_: &u32| -> (b: bool){
     ensures b == (*x_ != idx)
+//@}
+//@after 1 if self.head_idx.unwrap() == idx{
+    proof {
+        let f0 = h_cells(h0);
+        let f3 = h_cells(*self);
+        assert(l_vac(f0, lo, hi, idx as int));
+        assert(l_vac(f0, lo, hi, prev as int) && l_vac(f0, lo, hi, next as int));
+        assert forall|j: int| lo <= j < hi implies #[trigger] f3(j) == cell_after_remove(f0(j), j, idx as int, prev as int, next as int) by {
+            assert(h_it(*self, j) == h_it(h3, j));
+        }
+        lemma_remove(f0, f3, h0.head_idx, self.head_idx, lo, hi, idx as int, prev as int, next as int);
+        assert forall|j: int| h_active(h0, j) implies h_used_base(*self, j) == h_used_base(h0, j)
+            && h_used_index(*self, j) == (h_used_index(h0, j) || j == idx) by {
+            assert(f3(j) == cell_after_remove(f0(j), j, idx as int, prev as int, next as int));
+        }
+    }
+//@}
+//@fn dropped_block
+//@ret r
+//@head{
+    requires h_basic(*self)
+    ensures r.is_some() == (h_cap(*self) <= h_hi(*self)),
+        r.is_some() ==> self.num_blocks >= self.num_free_blocks && r.unwrap() == self.num_blocks - self.num_free_blocks
+            && r.unwrap() as int * self.block_len as int == h_lo(*self),
+//@}
+//@closure 1 || => || -> (q: u32){
+    ensures q == (if self.num_blocks >= self.num_free_blocks { self.num_blocks - self.num_free_blocks } else { 0 }) as u32
+//@}
+//@start{
+    proof {
+        lemma_window(*self);
+        let bl = self.block_len as int; let nb = self.num_blocks as int; let nf = self.num_free_blocks as int;
+        if nb < nf { assert(nb * bl < bl * nf) by (nonlinear_arith) requires nb < nf, bl > 0; }
+        else { assert(nb * bl >= bl * nf) by (nonlinear_arith) requires nb >= nf, bl > 0; }
+    }
+//@}
+//@fn reset
+//@rules R12x
+//@head{
+    requires h_basic(*old(self)), h_active(*old(self), idx as int)
+    ensures h_same_params(*old(self), *final(self)), final(self).head_idx == old(self).head_idx,
+        final(self).items@ == old(self).items@.update(idx as int % h_cap(*old(self)), ListItem { next: 0, prev: 0, used_base: false, used_index: false }),
+//@}
+//@fn vacant_iter
+//@ret r
+//@head{
+    ensures r.list == self, r.idx == self.head_idx
+//@}
+//@fn unused_base_in_block
+//@ret r
+//@head{
+    requires h_basic(*self), h_lo(*self) <= block_idx as int * self.block_len as int, block_idx < self.num_blocks
+    ensures match r {
+            Some(b) => block_idx as int * self.block_len as int <= b < (block_idx as int + 1) * self.block_len as int && !h_used_base(*self, b as int),
+            None => forall|b: int| block_idx as int * self.block_len as int <= b < (block_idx as int + 1) * self.block_len as int ==> h_used_base(*self, b),
+        }
+//@}
+//@start{
+    proof {
+        lemma_window(*self);
+        let bl = self.block_len as int; let nb = self.num_blocks as int; let k = block_idx as int;
+        assert((k + 1) * bl <= nb * bl) by (nonlinear_arith) requires k + 1 <= nb, bl > 0;
+        assert((k + 1) * bl == k * bl + bl) by (nonlinear_arith);
+        assert(k * bl >= 0) by (nonlinear_arith) requires k >= 0, bl > 0;
+    }
+//@}
+//@rules R16
+//@loop 1{
+    invariant_except_break verif_r.is_none(),
+    invariant h_basic(*self), start <= verif_i <= end,
+        h_lo(*self) <= start as int, end as int <= h_hi(*self),
+        forall|b: int| start <= b < verif_i ==> h_used_base(*self, b),
+    ensures
+        match verif_r { Some(b) => start <= b < end && !h_used_base(*self, b as int), None => verif_i == end },
+        forall|b: int| start <= b < verif_i ==> h_used_base(*self, b), start <= verif_i <= end,
+    decreases end - verif_i
 //@}
 //@endimpl
